@@ -78,7 +78,7 @@ PROPS["C11"] = {
 }
 
 PROPS["C10"] = {
-    "files": ["hrpc/c10_roundtrip.go", "hrpc/c10_encodings.go"],
+    "files": ["hrpc/c10_roundtrip.go", "hrpc/c10_encodings.go", "hrpc/c05_fields.go"],
     "claim": "Every cell with row/family/qualifier/value up to F bytes each (all byte values, all lengths incl. empty), any 64-bit "
              "timestamp and any type byte, appended to a buffer with arbitrary prior content, decodes by the client's decoder and by "
              "an independent KeyValue decoder to the identical fields, consuming exactly cellblockLen bytes; prior content untouched.",
@@ -89,6 +89,7 @@ PROPS["C10"] = {
          "params": {"quick": {"F": 3, "P": 2, "PX": 2}, "thorough": {"F": 4, "P": 2, "PX": 40}}},
         {"name": "cell_boundary", "steps": 60000000, "pkg": "hrpc", "entry": "VerifCellBoundary", "reach": ["boundary"], "sample_pass": 1,
          "params": {"quick": {"ROW": 65535, "FAM": 255, "ALLOC": 70000}, "thorough": {"ROW": 65535, "FAM": 255, "ALLOC": 70000}}},
+        {"name": "mutate_fields", "pkg": "hrpc", "entry": "VerifMutateFields", "reach": ["mutate"], "params": {"quick": {}, "thorough": {}}},
         {"name": "two_encodings", "pkg": "hrpc", "entry": "VerifTwoEncodings", "reach": ["compared"], "native_retries": 12,
          "params": {"quick": {"FAMS": 2, "QUALS": 1}, "thorough": {"FAMS": 2, "QUALS": 2}}},
     ],
@@ -193,7 +194,7 @@ PROPS["C07"] = {
          "params": {"quick": {"PROP": 7, "N": 2, "TRIES": 2, "LOOKUPFAIL": 1, "CANCEL": 0}, "thorough": {"PROP": 7, "N": 3, "TRIES": 2, "LOOKUPFAIL": 1, "CANCEL": 0}}},
         {"name": "sendbatch_own_contexts", "pkg": "root", "entry": "VerifSendBatchOwnContexts", "stubs": BATCH_STUBS, "reach": ["returned", "own-context-done-before"], "native_retries": 30,
          "preempts": {"quick": 1, "thorough": 2},
-         "params": {"quick": {"PROP": 7, "N": 2, "TRIES": 1, "LOOKUPFAIL": 0, "CANCEL": 0}, "thorough": {"PROP": 7, "N": 2, "TRIES": 2, "LOOKUPFAIL": 0, "CANCEL": 0}}},
+         "params": {"quick": {"PROP": 7, "N": 2, "TRIES": 2, "LOOKUPFAIL": 0, "CANCEL": 0}, "thorough": {"PROP": 7, "N": 2, "TRIES": 3, "LOOKUPFAIL": 0, "CANCEL": 0}}},
         {"name": "sendbatch_cancel", "pkg": "root", "entry": "VerifSendBatch", "stubs": BATCH_STUBS, "reach": ["returned"], "native_retries": 30,
          "preempts": {"quick": 1, "thorough": 2},
          "params": {"quick": {"PROP": 7, "N": 2, "TRIES": 2, "LOOKUPFAIL": 0, "CANCEL": 1}, "thorough": {"PROP": 7, "N": 3, "TRIES": 2, "LOOKUPFAIL": 1, "CANCEL": 1}}},
@@ -241,6 +242,8 @@ PROPS["C06"] = {
          "params": {"quick": {"ROWS": 2, "REGIONS": 2, "RESP": 3, "NROWS": 2, "REVERSED": 1, "KEYL": 1}, "thorough": {"ROWS": 3, "REGIONS": 2, "RESP": 3, "NROWS": 2, "REVERSED": 1, "KEYL": 1}}},
         {"name": "scan_forward_id0", "pkg": "root", "entry": "VerifScanID0", "reach": ["scanned"],
          "params": {"quick": {"ROWS": 2, "REGIONS": 2, "RESP": 2, "NROWS": 2, "REVERSED": 0, "KEYL": 1}, "thorough": {"ROWS": 2, "REGIONS": 2, "RESP": 3, "NROWS": 2, "REVERSED": 0, "KEYL": 1}}},
+        {"name": "scan_reversed_zero_keys", "pkg": "root", "entry": "VerifScanZeroKeys", "reach": ["scanned"],
+         "params": {"quick": {"ROWS": 1, "REGIONS": 2, "RESP": 1, "NROWS": 2, "REVERSED": 1, "KEYL": 1}, "thorough": {"ROWS": 2, "REGIONS": 2, "RESP": 1, "NROWS": 2, "REVERSED": 1, "KEYL": 1}}},
         {"name": "scan_reversed_longkeys", "pkg": "root", "entry": "VerifScan", "reach": ["scanned"],
          "params": {"quick": {"ROWS": 1, "REGIONS": 2, "RESP": 2, "NROWS": 2, "REVERSED": 1, "KEYL": 2}, "thorough": {"ROWS": 2, "REGIONS": 2, "RESP": 2, "NROWS": 2, "REVERSED": 1, "KEYL": 2}}},
         {"name": "scan_forward_longkeys", "pkg": "root", "entry": "VerifScan", "reach": ["scanned"],
@@ -258,9 +261,9 @@ PROPS["C14"] = {
     "outside": "lease expiry on the server; the renew loop; scans created with the internal CloseScanner option over more than one response",
     "assumptions": ["model server as in C06"],
     "jobs": [
-        {"name": "scan_endings_forward", "pkg": "root", "entry": "VerifScanEndings", "reach": ["ended", "closed-early", "cancelled", "failed", "failed-then-cancelled"],
+        {"name": "scan_endings_forward", "pkg": "root", "entry": "VerifScanEndings", "reach": ["ended", "closed-early", "cancelled", "failed", "failed-then-cancelled", "error-with-partial-row"],
          "params": {"quick": {"ROWS": 2, "REGIONS": 2, "RESP": 3, "NROWS": 2, "REVERSED": 0, "KEYL": 1}, "thorough": {"ROWS": 3, "REGIONS": 2, "RESP": 3, "NROWS": 2, "REVERSED": 0, "KEYL": 1}}},
-        {"name": "scan_endings_reversed", "pkg": "root", "entry": "VerifScanEndings", "reach": ["ended", "closed-early", "cancelled", "failed", "failed-then-cancelled"],
+        {"name": "scan_endings_reversed", "pkg": "root", "entry": "VerifScanEndings", "reach": ["ended", "closed-early", "cancelled", "failed", "failed-then-cancelled", "error-with-partial-row"],
          "params": {"quick": {"ROWS": 2, "REGIONS": 2, "RESP": 2, "NROWS": 2, "REVERSED": 1, "KEYL": 1}, "thorough": {"ROWS": 3, "REGIONS": 2, "RESP": 3, "NROWS": 2, "REVERSED": 1, "KEYL": 1}}},
         {"name": "scan_cancel_outstanding", "steps": 60000, "pkg": "root", "entry": "VerifCancelScan", "reach": ["cancelled"], "watchdog": 20,
          "params": {"quick": {"NROWS": 1}, "thorough": {"NROWS": 1}}},
@@ -279,6 +282,8 @@ PROPS["C18"] = {
     "jobs": [
         {"name": "inflight", "timeout_s": {"quick": 600, "thorough": 3000}, "pkg": "region", "entry": "VerifInFlight", "stubs": RECV_STUBS, "reach": ["idle", "waiting"],
          "params": {"quick": {"CALLS": 2, "protoMax": 1, "protoFixed": 1, "TIMEND": 1}, "thorough": {"CALLS": 3, "protoMax": 1, "protoFixed": 1, "TIMEND": 1}}},
+        {"name": "inflight_two_overtaken", "pkg": "region", "entry": "VerifInFlightTwoOvertaken", "stubs": RECV_STUBS, "reach": ["idle-after-overtaking"],
+         "preempts": {"quick": 3, "thorough": 4}, "params": {"quick": {"RACE": 1, "protoMax": 1, "protoFixed": 1}, "thorough": {"RACE": 1, "protoMax": 1, "protoFixed": 1}}},
         {"name": "dial_then_idle", "pkg": "region", "entry": "VerifDialIdle", "reach": ["idle-after-dial", "dial-deadline"],
          "params": {"quick": {"protoMax": 1, "protoFixed": 1}, "thorough": {"protoMax": 1, "protoFixed": 1}}},
         {"name": "inflight_concurrent", "pkg": "region", "entry": "VerifInFlightConcurrent", "stubs": RECV_STUBS, "reach": ["waiting"],
@@ -302,6 +307,8 @@ PROPS["C03"] = {
          "preempts": {"quick": 1, "thorough": 2}, "params": {"quick": {"RACE": 1, "K": 8, "protoMax": 1, "protoFixed": 1}, "thorough": {"RACE": 1, "K": 12, "protoMax": 1, "protoFixed": 1}}},
         {"name": "failure_concurrent_reader", "pkg": "region", "entry": "VerifFailureConcurrentReader", "stubs": RECV_STUBS, "reach": ["completed"],
          "preempts": {"quick": 2, "thorough": 3}, "params": {"quick": {"RACE": 1, "K": 4, "protoMax": 1, "protoFixed": 1}, "thorough": {"RACE": 1, "K": 5, "protoMax": 1, "protoFixed": 1}}},
+        {"name": "failure_blocked_writer", "pkg": "region", "entry": "VerifFailureBlockedWriter", "reach": ["writer-released"],
+         "preempts": {"quick": 1, "thorough": 2}, "params": {"quick": {"RACE": 1, "protoMax": 1, "protoFixed": 1}, "thorough": {"RACE": 1, "protoMax": 1, "protoFixed": 1}}},
         # failure "by read timeout" presupposes that the timeout is armed whenever a request is outstanding (shared with C18)
         {"name": "read_timeout_armed", "pkg": "region", "entry": "VerifInFlightConcurrent", "stubs": RECV_STUBS, "reach": ["waiting"],
          "preempts": {"quick": 2, "thorough": 3}, "params": {"quick": {"RACE": 1}, "thorough": {"RACE": 1}}},
@@ -345,8 +352,15 @@ PROPS["C15"]["jobs"].append(
     {"name": "compress_concurrent", "pkg": "region", "entry": "VerifCompressConcurrent", "stubs": FRAME_STUBS, "reach": ["two-compressing-senders"],
      "preempts": {"quick": 2, "thorough": 3}, "params": {"quick": {"RACE": 1}, "thorough": {"RACE": 1}}})
 
+# C01: the region a call is filed under inside a multi-request (needs the frame-level stubs of C05)
+PROPS["C01"]["files"] = PROPS["C01"]["files"] + ["region/c02_correlation.go", "region/c15_compressor.go", "region/c05_frames.go"]
+PROPS["C01"]["jobs"].append(
+    {"name": "multi_region_assignment", "pkg": "region", "entry": "VerifMultiFrameGets", "stubs": FRAME_STUBS, "reach": ["multi"], "native_retries": 10,
+     "params": {"quick": {"CALLS": 5}, "thorough": {"CALLS": 6}}})
+
 PROPS["C05"] = {
-    "files": ["region/fakes.go", "region/c02_correlation.go", "region/c15_compressor.go", "region/c05_frames.go"],
+    "files": ["region/fakes.go", "region/c02_correlation.go", "region/c15_compressor.go", "region/c05_frames.go",
+              "hrpc/c10_roundtrip.go", "hrpc/c10_encodings.go", "hrpc/c05_fields.go"],
     "claim": "Frame level: every sequence of CALLS single calls (gets with / without priority, puts with 0..2 cells), with and without "
              "cellblock compression, and every multi-request of CALLS calls over two regions (every grouping, every map iteration "
              "order) is written as whole frames: length prefix = delimited header + delimited request + cellblocks; header carries "
@@ -360,10 +374,17 @@ PROPS["C05"] = {
     "jobs": [
         {"name": "single_frames", "timeout_s": {"quick": 600, "thorough": 2400}, "pkg": "region", "entry": "VerifSingleFrames", "stubs": FRAME_STUBS, "reach": ["frames"], "native_retries": 6,
          "params": {"quick": {"CALLS": 2}, "thorough": {"CALLS": 3}}},
+        {"name": "get_fields", "pkg": "hrpc", "entry": "VerifGetFields", "reach": ["get"], "params": {"quick": {}, "thorough": {}}},
+        {"name": "scan_fields", "pkg": "hrpc", "entry": "VerifScanFields", "reach": ["scan-open", "scan-continuation"], "params": {"quick": {}, "thorough": {}}},
+        {"name": "mutate_fields", "pkg": "hrpc", "entry": "VerifMutateFields", "reach": ["mutate"], "params": {"quick": {}, "thorough": {}}},
         {"name": "resend_after_region_change", "pkg": "region", "entry": "VerifResend", "stubs": FRAME_STUBS, "reach": ["resent"],
          "params": {"quick": {}, "thorough": {}}},
+        {"name": "multi_frame_gets", "pkg": "region", "entry": "VerifMultiFrameGets", "stubs": FRAME_STUBS, "reach": ["multi"], "native_retries": 10,
+         "params": {"quick": {"CALLS": 5}, "thorough": {"CALLS": 6}}},
         {"name": "multi_frame", "pkg": "region", "entry": "VerifMultiFrame", "stubs": FRAME_STUBS, "reach": ["multi"], "native_retries": 10,
          "params": {"quick": {"CALLS": 3}, "thorough": {"CALLS": 4}}},
+        {"name": "compress_concurrent", "pkg": "region", "entry": "VerifCompressConcurrent", "stubs": FRAME_STUBS, "reach": ["two-compressing-senders"],
+         "preempts": {"quick": 2, "thorough": 3}, "params": {"quick": {"RACE": 1}, "thorough": {"RACE": 1}}},
         {"name": "concurrent_senders", "pkg": "region", "entry": "VerifConcurrentSenders", "stubs": FRAME_STUBS, "reach": ["two-senders"],
          "preempts": {"quick": 2, "thorough": 3}, "params": {"quick": {"RACE": 1}, "thorough": {"RACE": 1}}},
         {"name": "hello", "pkg": "region", "entry": "VerifHello", "reach": ["hello"], "params": {"quick": {"protoMax": 3}, "thorough": {"protoMax": 6}}},
@@ -386,6 +407,7 @@ PROPS["C20"] = {
          "preempts": {"quick": 2, "thorough": 3}, "params": {"quick": {"RACE": 1, "R": 2}, "thorough": {"RACE": 1, "R": 3}}},
         {"name": "late_failure_report", "pkg": "root", "entry": "VerifLateFailureReport", "reach": ["late-report"],
          "preempts": {"quick": 1, "thorough": 2}, "params": {"quick": {"RACE": 1}, "thorough": {"RACE": 1}}},
+        {"name": "region_client_addr", "pkg": "region", "entry": "VerifClientAddr", "reach": ["addr"], "params": {"quick": {}, "thorough": {}}},
         {"name": "dial_late_connection", "pkg": "region", "entry": "VerifDialLate", "reach": ["late-dial"],
          "preempts": {"quick": 2, "thorough": 3}, "params": {"quick": {"RACE": 1, "protoMax": 1, "protoFixed": 1}, "thorough": {"RACE": 1, "protoMax": 1, "protoFixed": 1}}},
         {"name": "dial_once", "pkg": "region", "entry": "VerifDialOnce", "reach": ["dialled"],
@@ -413,6 +435,8 @@ PROPS["C09"] = {
     "jobs": [
         {"name": "establish", "steps": 40000, "timeout_s": {"quick": 300, "thorough": 1500}, "pkg": "root", "entry": "VerifEstablish", "stubs": EST_STUBS, "reach": ["re-established", "replaced-or-gone"],
          "params": {"quick": {"FAULTS": 2}, "thorough": {"FAULTS": 3}}},
+        {"name": "evicted_while_establishing", "steps": 40000, "pkg": "root", "entry": "VerifEvictedWhileEstablishing", "stubs": EST_STUBS, "reach": ["evicted"],
+         "preempts": {"quick": 1, "thorough": 2}, "params": {"quick": {"FAULTS": 0, "RACE": 1}, "thorough": {"FAULTS": 1, "RACE": 1}}},
         {"name": "two_callers", "steps": 40000, "timeout_s": {"quick": 300, "thorough": 1500}, "pkg": "root", "entry": "VerifTwoCallers", "stubs": EST_STUBS, "reach": ["both-returned"],
          "preempts": {"quick": 1, "thorough": 2}, "params": {"quick": {"FAULTS": 1, "BUSY": 1, "SAME": 0, "RACE": 1}, "thorough": {"FAULTS": 1, "BUSY": 1, "SAME": 0, "RACE": 1}}},
         {"name": "two_callers_idle", "steps": 40000, "timeout_s": {"quick": 300, "thorough": 1500}, "pkg": "root", "entry": "VerifTwoCallers", "stubs": EST_STUBS, "reach": ["both-returned"],
@@ -469,6 +493,8 @@ PROPS["C17"] = {
     "jobs": [
         {"name": "backoff_formula", "pkg": "root", "entry": "VerifBackoffFormula", "reach": ["zero", "doubling", "linear", "constant"], "no_native": True,
          "params": {"quick": {"SMALL": 0}, "thorough": {"SMALL": 0}}},
+        {"name": "backoff_formula_deadline", "pkg": "root", "entry": "VerifBackoffFormulaDeadline", "reach": ["zero", "doubling", "linear", "constant", "deadline-passed"], "no_native": True,
+         "params": {"quick": {"SMALL": 0}, "thorough": {"SMALL": 0}}},
         {"name": "backoff_formula_small", "pkg": "root", "entry": "VerifBackoffFormula", "reach": ["zero", "doubling"],
          "params": {"quick": {"SMALL": 1}, "thorough": {"SMALL": 1}}},
         {"name": "backoff_cancel", "pkg": "root", "entry": "VerifBackoffCancel", "reach": ["cancelled"], "no_native": True,
@@ -498,7 +524,7 @@ PROPS["C19"] = {
     "assumptions": ["(*client).lookupRegion is cut: after Close it answers ErrClientClosed as the real meta lookup does through SendRPC"],
     "jobs": [
         {"name": "close_race", "steps": 40000, "timeout_s": {"quick": 400, "thorough": 1800}, "pkg": "root", "entry": "VerifCloseRace", "stubs": EST_STUBS, "reach": ["closed"],
-         "preempts": {"quick": 2, "thorough": 3}, "params": {"quick": {"RACE": 1, "FAULTS": 0, "ONLINE": 0}, "thorough": {"RACE": 1, "FAULTS": 1, "ONLINE": 0}}},
+         "preempts": {"quick": 2, "thorough": 2}, "params": {"quick": {"RACE": 1, "FAULTS": 0, "ONLINE": 0}, "thorough": {"RACE": 1, "FAULTS": 1, "ONLINE": 0}}},
         {"name": "close_with_renewing_scanner", "steps": 40000, "pkg": "root", "entry": "VerifCloseWithRenewingScanner", "reach": ["renewer-stopped"], "max_ticks": 3,
          "params": {"quick": {}, "thorough": {}}},
         {"name": "close_race_online", "steps": 40000, "timeout_s": {"quick": 400, "thorough": 1800}, "pkg": "root", "entry": "VerifCloseRace", "stubs": EST_STUBS, "reach": ["closed"],
